@@ -192,6 +192,11 @@ _STDLIB = {"functools.partial": functools.partial, "functools.reduce": functools
            "bisect.bisect": bisect.bisect, "bisect.bisect_left": bisect.bisect_left, "bisect.bisect_right": bisect.bisect_right, "heapq.nlargest": heapq.nlargest,
            "heapq.nsmallest": heapq.nsmallest, "math.inf": math.inf, "math.floor": math.floor, "math.ceil": math.ceil, "math.isinf": math.isinf, "sys.maxsize": __import__("sys").maxsize}
 _STDLIB.update({f"operator.{n}": getattr(operator, n) for n in ("eq", "ne", "lt", "le", "gt", "ge", "add", "sub", "mul", "neg", "not_", "truth", "is_", "is_not", "contains", "getitem")})
+# regular expressions are evaluated by Python's own engine (the module's patterns, applied the way the module applies them: match / fullmatch / search)
+_STDLIB.update({f"re.{n}": getattr(re, n) for n in ("compile", "match", "fullmatch", "search", "findall", "sub", "split", "escape", "IGNORECASE", "I", "VERBOSE", "X", "ASCII", "A",
+                                                     "MULTILINE", "M", "DOTALL", "S")})
+_RE_ATTRS = {re.Pattern: {"match", "fullmatch", "search", "findall", "sub", "split", "pattern", "groups", "flags", "groupindex"},
+             re.Match: {"group", "groups", "groupdict", "start", "end", "span", "string", "lastindex", "lastgroup", "re"}}
 _IMMUTABLE = (str, bytes, int, float, tuple, frozenset)
 
 
@@ -641,12 +646,17 @@ class Interp:
         return v
 
     def call_stub(self, name, args, kwargs):
-        f = self.funcs.get(name)
-        if f is not None:
-            # arguments are bound to the parameters of the REAL function (keyword or positional, defaults applied) and handed to the stub in declaration order
-            env, names = self.bind(f, args, kwargs)
-            return self.stubs[name](*[env[n] for n in names])
-        return self.stubs[name](*args, **kwargs)
+        try:
+            f = self.funcs.get(name)
+            if f is not None:
+                # arguments are bound to the parameters of the REAL function (keyword or positional, defaults applied) and handed to the stub in declaration order
+                env, names = self.bind(f, args, kwargs)
+                return self.stubs[name](*[env[n] for n in names])
+            return self.stubs[name](*args, **kwargs)
+        except (CannotEval, _Raised, _Ctl, RecursionError):
+            raise
+        except Exception as x:  # noqa: BLE001 - a reference stub that is handed something it does not model
+            raise CannotEval(f"reference stub {name}: {type(x).__name__}: {x}"[:160])
 
     def instantiate(self, cls, args, kwargs=None):
         rt = self.real_type(cls)
@@ -717,6 +727,8 @@ class Interp:
             raise CannotEval(f"attribute {attr} of a {t.__name__}")
         t = type(recv)
         if t in _METHODS and attr in _METHODS[t]:
+            return getattr(recv, attr)
+        if t in _RE_ATTRS and attr in _RE_ATTRS[t]:
             return getattr(recv, attr)
         raise CannotEval(f"attribute {attr} of a {t.__name__}")
 
@@ -875,7 +887,7 @@ class Interp:
                 k = slice(*[self.ev(x, env) if x is not None else None for x in (e.slice.lower, e.slice.upper, e.slice.step)])
             else:
                 k = self.ev(e.slice, env)
-            if not (isinstance(v, (list, tuple, dict, str)) and (isinstance(k, slice) or _plain(k))):
+            if not (isinstance(v, (list, tuple, dict, str, re.Match)) and (isinstance(k, slice) or _plain(k))):
                 raise CannotEval(f"subscript of {short(e.value, 40)}")
             try:
                 return v[k]
@@ -1287,8 +1299,13 @@ def run(chk):
         "match before the nearest-prior-minor fallback, which applies at the minor step only; eligibility of the bounded-minor search as a decision table over {major lower/"
         "same/higher} x {minor None/0/less/equal/greater} x {patch set?} x {suffix set?}; nearest = max of the eligible; master only under strictly-greater major (every "
         "versioned branch counted, numerically) with a master branch present / serverless / empty version; otherwise None. No version component is tested by truthiness. "
-        "Structurally: repository fallback order remote < local < v-tag < raise; the checked-out ref is the matcher's result and checkout errors are never swallowed; remote "
-        "ref names lose only their remote prefix (on values)."
+        "Repository side, on values too: RallyRepository(...).update(version) is evaluated (helper methods followed) against reference stubs of the git functions (bound through "
+        "their real signatures), of the matcher (a fixed answer per listing) and of variants_of, in 19 scenarios (remote hit / miss, no remote, already on the branch, related "
+        "branch names, tag fallback, nothing qualifies, failing checkout, fetch requested): fallback order remote < local < v-tag < raise, the checked-out ref is the matcher's "
+        "result, the head revision held afterwards is the one after the last ref-changing call, checkout errors propagate, the remote listing follows a fetch. The git command "
+        "lines are evaluated with recording subprocess stubs: the directory is interpolated escaped, fetch prunes and fetches tags, clone is not narrowed. Where a shape cannot "
+        "be evaluated the structural form of the same obligations (CFG / guard facts in update() and its helper methods, literal words of the command) decides or reports "
+        "`not recognised`. Remote ref names lose only their remote prefix (on values)."
     )
     chk.not_decided = "git behaviour, contents of the repositories."
 
@@ -1507,28 +1524,75 @@ def run(chk):
     ], bm, match, key=f"{_V}:best_match:master-membership:2", why="for a repository without master the v-tag / local fallback is skipped and the checkout of [master] fails")
     # the lenient branch-name pattern accepts exactly MAJOR[.MINOR[.PATCH[-SUFFIX]]] (decided by matching the extracted literal against representative names):
     # an unrelated branch such as 123-fix-typo must not count as a version (components() would read absent parts)
-    pats = {}
-    for n in ver.tree.body:
-        if isinstance(n, ast.Assign) and isinstance(n.value, ast.Call) and dotted(n.value.func) == "re.compile" and n.value.args and isinstance(n.value.args[0], ast.Constant) \
-                and isinstance(n.targets[0], ast.Name):
-            pats[n.targets[0].id] = (n, n.value.args[0].value)
-    vp_ = ver.func("_versions_pattern")
-    lenient = [r_.value.orelse.id if isinstance(r_.value, ast.IfExp) and isinstance(r_.value.orelse, ast.Name) else None for r_ in walk_body(vp_) if isinstance(r_, ast.Return)]
-    lenient = [x for x in lenient if x in pats] or [k for k in pats if "OPTIONAL" in k]
-    if not lenient:
-        raise AnchorMissing("lenient version pattern (the one _versions_pattern returns for strict=False)")
-    ln, ltxt = pats[lenient[0]]
-    try:
-        rx = re.compile(ltxt)
-    except re.error as e:
-        raise AnchorMissing(f"lenient version pattern does not compile: {e}")
     NAMES = [("7", True), ("7.3", True), ("7.3.1", True), ("7.3.1-SNAPSHOT", True), ("0.0", True), ("master", False), ("123-fix-typo", False), ("2024-05-cleanup", False), ("7-dev", False),
              ("8.1-backport", False), ("7.", False), ("v7.3.1", False), ("7.3.1.2", False), ("", False)]
-    for name, want in NAMES:
-        got = rx.match(name) is not None
-        chk.ob("O15.3", f"branch name {name!r} {'is' if want else 'is not'} a version branch", got == want, ln, f"pattern {ltxt!r} {'matches' if got else 'does not match'}" + ("" if got == want else
-               " — the name is parsed as a version with absent parts: int(None) raises TypeError in components(), the repository update crashes on an unrelated branch" if got else " — a versioned branch is ignored"),
-               key=f"{_V}:{lenient[0]}:{name}")
+
+    def lenient_pattern_structurally():
+        """FALLBACK: the literal of the lenient pattern is located in the text (module-level re.compile bound to the name _versions_pattern returns for strict=False) and matched."""
+        pats = {}
+        for n in ver.tree.body:
+            if isinstance(n, ast.Assign) and isinstance(n.value, ast.Call) and dotted(n.value.func) == "re.compile" and n.value.args and isinstance(n.value.args[0], ast.Constant) \
+                    and isinstance(n.targets[0], ast.Name):
+                pats[n.targets[0].id] = (n, n.value.args[0].value)
+        vp_ = ver.index().get("_versions_pattern")
+        lenient = [] if vp_ is None else [r_.value.orelse.id if isinstance(r_.value, ast.IfExp) and isinstance(r_.value.orelse, ast.Name) else None for r_ in walk_body(vp_) if isinstance(r_, ast.Return)]
+        lenient = [x for x in lenient if x in pats] or [k for k in pats if "OPTIONAL" in k]
+        if not lenient:
+            chk.unknown("O15.3", "the lenient version pattern is neither evaluable nor located as a module-level re.compile(...) literal", ver.tree)
+            return
+        ln, ltxt = pats[lenient[0]]
+        try:
+            rx = re.compile(ltxt)
+        except re.error as e:
+            chk.unknown("O15.3", f"lenient version pattern does not compile: {e}", ln)
+            return
+        for name, want in NAMES:
+            got = rx.match(name) is not None
+            chk.ob("O15.3", f"branch name {name!r} {'is' if want else 'is not'} a version branch", got == want, ln, f"pattern {ltxt!r} {'matches' if got else 'does not match'}" + ("" if got == want else
+                   " — the name is parsed as a version with absent parts: int(None) raises TypeError in components(), the repository update crashes on an unrelated branch" if got else " — a versioned branch is ignored"),
+                   key=f"{_V}:{lenient[0]}:{name}")
+
+    # decided on VALUES: the module's own is_version_identifier(name, strict=False) is evaluated WITHOUT stubs (its pattern is run by Python's regex engine, applied the way the module
+    # applies it - match / fullmatch, anchored or not, one constant or two); only when that cannot be evaluated the literal is located in the text
+    real = Interp(ver)
+    ivi, comp = ver.func("is_version_identifier"), ver.func("components")
+
+    def identified(name):
+        real.budget, real.depth = 60000, 0
+        return real.call_function(ivi, [name, False])
+
+    outcomes = [(name, want, attempt(lambda: identified(name))) for name, want in NAMES]
+    if any(k_ == "unknown" for _n, _w, (k_, _g) in outcomes) or len(params_of(ivi)) != 2:
+        lenient_pattern_structurally()
+    else:
+        cname = next((st.targets[0].id for st in ver.tree.body if isinstance(st, ast.Assign) and isinstance(st.targets[0], ast.Name) and "OPTIONAL" in st.targets[0].id), "lenient-pattern")
+        for name, want, (k_, got) in outcomes:
+            ok = k_ == "value" and got is want
+            chk.ob("O15.3", f"branch name {name!r} {'is' if want else 'is not'} a version branch", ok, ivi, f"is_version_identifier({name!r}, strict=False) -> {got!r}" + ("" if k_ == "value" else " (raised)") + ("" if ok else
+                   " — the name is parsed as a version with absent parts: int(None) raises TypeError in components(), the repository update crashes on an unrelated branch" if got is True else " — a versioned branch is ignored"),
+                   key=f"{_V}:{cname}:{name}")
+    # the other primitive the matcher's helpers rely on (replaced by its reference semantics everywhere above): components() itself yields the documented parts
+    if len(params_of(comp)) == 2:
+        def parts(version, strict):
+            real.budget, real.depth = 60000, 0
+            try:
+                return real.call_function(comp, [version, strict])
+            except _Raised as r_:
+                return f"raises {r_.name}"
+
+        table(chk, "O15.3", "components() yields (major, minor, patch, suffix), absent parts None, '.0' parts 0", [
+            ("'7' (lenient)", ("7", False), (7, None, None, None)),
+            ("'7.3' (lenient)", ("7.3", False), (7, 3, None, None)),
+            ("'7.0' (lenient)", ("7.0", False), (7, 0, None, None)),
+            ("'7.3.1' (lenient)", ("7.3.1", False), (7, 3, 1, None)),
+            ("'10.0.0-SNAPSHOT' (lenient)", ("10.0.0-SNAPSHOT", False), (10, 0, 0, "SNAPSHOT")),
+            ("'8.5.1' (strict)", ("8.5.1", True), (8, 5, 1, None)),
+            ("'8.0.0-rc1' (strict)", ("8.0.0-rc1", True), (8, 0, 0, "rc1")),
+            ("'8.5' (strict: not a full version)", ("8.5", True), "raises InvalidSyntax"),
+            ("'master' (lenient: not a version)", ("master", False), "raises InvalidSyntax"),
+        ], comp, parts, why="the matcher reads wrong components from every branch name / version")
+    else:
+        chk.unknown("O15.3", "components(version, strict) is not located with these two parameters", comp)
     # master for a version identifier only after the variants loop is exhausted
     table(chk, "O15.3", "master considered only after every variant failed", [
         ("['9', '8', 'master'] for 9.1.0", (["9", "8", "master"], "9.1.0"), "9"),
@@ -1591,7 +1655,7 @@ def run(chk):
                 if h is not None and h is not up:
                     helper_calls.append((n, h))
         helper_bms = [c for _n, h in helper_calls for c in walk_body(h) if isinstance(c, ast.Call) and last_attr(c.func) == "best_match"]
-        if not bms or (len(bms) != 2 and helper_bms):
+        if not bms or (len(bms) != 2 and helper_bms) or len(bms) > 2:
             # the searches are (partly) made in helper methods: the fallback order across methods is not decided here
             chk.unknown("O15.4", f"{len(bms)} matcher call(s) (best_match) located in RallyRepository.update itself, {len(helper_bms)} in helper methods it calls: the order remote < local "
                         "across methods is not recognised", up)
@@ -1798,6 +1862,9 @@ def run(chk):
                 chk.ob("O15.4", "checked-out ref is the matcher's (or tag finder's) result", False, c, f"{short(c, 70)}: `{ref_.id}` is a parameter of update(), not a result of the matcher")
             elif not located or not d:
                 chk.unknown("O15.4", f"the origin of the ref handed to `{short(c, 60)}` is not located (neither a local of update() nor a parameter of the helper it is written in)", c)
+            elif any(isinstance(x, ast.Call) and last_attr(x.func) not in ("best_match", "_find_matching_tag") for x in d) \
+                    and all(isinstance(x, ast.Call) or source.is_const(x, None) for x in d):
+                chk.unknown("O15.4", f"the ref handed to `{short(c, 60)}` is the result of `{short([x for x in d if isinstance(x, ast.Call)][0], 50)}`, which is not followed here", c)
             else:
                 ok = all(isinstance(x, ast.Call) and last_attr(x.func) in ("best_match", "_find_matching_tag") for x in d)
                 chk.ob("O15.4", "checked-out ref is the matcher's (or tag finder's) result", ok, c, short(c, 70) + ("" if via is None else f" in {fn_.name}(), called as `{short(via, 60)}`"))
@@ -1843,7 +1910,7 @@ def run(chk):
         n_cmd = 0
         for gfn in git.functions():
             gps = params_of(gfn)
-            if not gps:
+            if not gps or (only is not None and not any(gfn is x for x in only)):
                 continue
             raw = gps[0]
             for c in [c for c in walk_body(gfn) if isinstance(c, ast.Call) and (dotted(c.func) or "").startswith("process.run_subprocess") and c.args]:
@@ -1862,10 +1929,7 @@ def run(chk):
                 bare = [x for x in interp if isinstance(x, ast.Name) and x.id == raw]
                 chk.ob("O15.4", f"git.{gfn.name}: the repository path is interpolated escaped", not bare, c, "" if not bare else f"`{raw}` is used raw in {short(cmd, 60)}",
                        key=f"esrally/utils/git.py:{gfn.name}:escaped-path:{len([x for x in walk_body(gfn) if isinstance(x, ast.Call) and x.lineno < c.lineno and (dotted(x.func) or '').startswith('process.run_subprocess')])}")
-        if n_cmd >= 8:
-            chk.ob("O15.4", "git command sites located", True, git.tree, f"{n_cmd} command(s) with interpolated arguments")
-        else:
-            chk.unknown("O15.4", f"only {n_cmd} git command(s) with interpolated arguments located in git.py (8 expected: the command sites are built differently)", git.tree)
+        return n_cmd
 
     def clone_structurally():
         # a fresh clone has ALL branches of the remote (a shallow / single-branch clone only knows the default branch: every version then falls back to it)
@@ -1878,7 +1942,293 @@ def run(chk):
             chk.ob("O15.4", "git clone fetches every branch (no --depth / --single-branch / --branch)", not narrowing, gcl, f"command words: {[t for t in ctoks if not t.startswith('%')]}" +
                    ("" if not narrowing else f" — {narrowing} leaves only the default branch: the best match for every version is then the default branch"), key="esrally/utils/git.py:clone:all-branches")
 
-    #@@VALUES@@
+    # ---- O15.4 decided on VALUES -------------------------------------------------------------------------------------------------------------------------
+    # RallyRepository(...).update(version) is EVALUATED (helper methods, guard clauses, walrus, one or several checkout sites are all the same to the evaluator) against
+    # reference stubs of its collaborators: the git functions (bound through their REAL signatures in git.py; checkout / rebase / pull are recorded, head_revision returns a token
+    # that names how many ref-changing calls happened before it), the matcher (returns the answer the scenario fixes for the remote resp. the local listing and records the version
+    # it is asked for) and versions.variants_of (documented order). Each obligation is the outcome of a scenario. Only when a scenario cannot be evaluated the structural
+    # fallback above decides.
+    hierarchy = {}
+    if repo.exists("esrally/exceptions.py"):
+        hierarchy = {c.name: c for c in repo.module("esrally/exceptions.py").tree.body if isinstance(c, ast.ClassDef)}
+    gsig = Interp(git)  # binds call-site arguments to the real signatures only
+    VERSION = "8.5.1"
+    REMOTE_LIST, LOCAL_LIST = ["7", "8.5", "master"], ["8", "old", "master"]
+
+    def in_order(binder, func, args, kwargs):
+        env, names = binder.bind(func, args, kwargs)
+        return [env[n] for n in names] + [env[x.arg] for x in func.args.kwonlyargs]
+
+    def ref_variants(version):
+        m_ = Ref.STRICT.match(version) if isinstance(version, str) else None
+        if m_ is None:
+            raise _Raised(f"InvalidSyntax: {version!r}", "InvalidSyntax")
+        a_, b_, c_, s_ = int(m_.group(1)), int(m_.group(2)), int(m_.group(3)), m_.group(4)
+        return ([f"{a_}.{b_}.{c_}-{s_}"] if s_ else []) + [f"{a_}.{b_}.{c_}", f"{a_}.{b_}", f"{a_}"]
+
+    def simulate(has_remote, remote_answer, local_answer, tags=(), current="master", fail=None, fetch=False, version=VERSION):
+        trace = []
+        st = {"current": current, "movers": 0}
+
+        def git_stub(name, impl):
+            f_ = git.index().get(name)
+            if not isinstance(f_, ast.FunctionDef):
+                def absent(*a, **k):
+                    raise CannotEval(f"git.{name} is not defined in git.py")
+                return absent
+            return lambda *a, **k: impl(*in_order(gsig, f_, list(a), k))
+
+        def move(kind, ref_):
+            trace.append((kind, ref_))
+            st["movers"] += 1
+            if fail == kind or (kind in ("rebase", "pull") and not has_remote):
+                # (a repository without a remote has no origin/<branch> to rebase on: git fails)
+                raise _Raised(f"SupplyError: {kind} {ref_} failed", "SupplyError")
+            st["current"] = ref_
+
+        def listing(src_dir, remote):
+            trace.append(("branches", bool(remote)))
+            return list(REMOTE_LIST if remote else LOCAL_LIST)
+
+        def fetched(src_dir, remote):
+            trace.append(("fetch", remote))
+
+        def tag_list(src_dir):
+            trace.append(("tags", None))
+            return list(tags)
+
+        def matcher(*a, **k):
+            alts, version = in_order(iv, bm, list(a), k)
+            if not isinstance(alts, (list, tuple, set, frozenset)) or not _plain(alts):
+                raise CannotEval("the matcher is handed something that is not a branch list")
+            which = "remote" if sorted(alts) == sorted(REMOTE_LIST) else ("local" if sorted(alts) == sorted(LOCAL_LIST) else None)
+            if which is None:
+                raise CannotEval(f"the matcher is handed neither the remote nor the local branch listing ({sorted(alts)})")
+            trace.append(("match", which, version))
+            return remote_answer if which == "remote" else local_answer
+
+        stubs = {"checkout": git_stub("checkout", lambda src_dir, branch: move("checkout", branch)), "rebase": git_stub("rebase", lambda src_dir, remote, branch: move("rebase", branch)),
+                 "pull": git_stub("pull", lambda src_dir, remote, branch: move("pull", branch)), "fetch": git_stub("fetch", fetched), "branches": git_stub("branches", listing),
+                 "head_revision": git_stub("head_revision", lambda src_dir: f"head@{st['movers']}"), "current_branch": git_stub("current_branch", lambda src_dir: st["current"]),
+                 "tags": git_stub("tags", tag_list), "best_match": matcher, "variants_of": lambda version: ref_variants(version), "is_working_copy": lambda *a, **k: True,
+                 "join": lambda *a: "/".join(a)}
+        ir = Interp(rep, stubs=stubs, hierarchy=hierarchy)
+        me, built = None, False
+        init = rep.methods(RR).get("__init__")
+        if init is not None and len(params_of(init)) == 7:
+            try:
+                me = ir.instantiate(RR, ["https://example.org/tracks.git" if has_remote else None, "/rally", "default", "tracks", False, fetch])
+                built = True
+            except (_Raised, CannotEval, _Ctl, RecursionError):
+                me = None
+        if me is None:
+            # (the constructor is not evaluated: the attributes update() reads are supplied under the names the repository uses today)
+            me = _Obj(RR)
+            me.fields.update({"url": "https://example.org/tracks.git" if has_remote else None, "repo_dir": "/rally/default", "resource_name": "tracks", "remote": has_remote, "offline": False,
+                              "logger": OPAQUE, "revision": None})
+        if not (fetch and built):
+            del trace[:]
+        ir.budget = 60000
+        kind, val = attempt(lambda: ir.call_function(up, [version], bound=me))
+        revs = [v for v in me.fields.values() if isinstance(v, str) and v.startswith("head@")]
+        return {"kind": kind, "val": val, "trace": trace, "refs": [e[1] for e in trace if e[0] in ("checkout", "rebase", "pull")], "revs": revs, "final": f"head@{st['movers']}", "built": built,
+                "matches": [e[1:] for e in trace if e[0] == "match"]}
+
+    SCEN = {
+        "remote-hit": ("remote repository; the matcher selects 8.5 from the remote listing (and would select 8 from the local one)", dict(has_remote=True, remote_answer="8.5", local_answer="8")),
+        "remote-hit-2": ("remote repository; the matcher selects master from the remote listing", dict(has_remote=True, remote_answer="master", local_answer="8")),
+        "remote-miss": ("remote repository; nothing matches remotely, 8 matches locally", dict(has_remote=True, remote_answer=None, local_answer="8")),
+        "local-only": ("repository without a remote (the remote listing would match 7); 8 matches locally", dict(has_remote=False, remote_answer="7", local_answer="8")),
+        "local-hit-2": ("repository without a remote; `old` matches locally", dict(has_remote=False, remote_answer=None, local_answer="old")),
+        "on-branch": ("repository without a remote; 8 matches locally and is checked out already", dict(has_remote=False, remote_answer=None, local_answer="8", current="8")),
+        "on-8.8": ("repository without a remote; 8 matches locally, 8.8 is checked out", dict(has_remote=False, remote_answer=None, local_answer="8", current="8.8")),
+        "on-18": ("repository without a remote; 8 matches locally, 18 is checked out", dict(has_remote=False, remote_answer=None, local_answer="8", current="18")),
+        "on-x8x": ("repository without a remote; 8 matches locally, x8x is checked out", dict(has_remote=False, remote_answer=None, local_answer="8", current="x8x")),
+        "local-and-tag": ("repository without a remote; 8 matches locally and the tag v8.5.1 exists", dict(has_remote=False, remote_answer=None, local_answer="8", tags=["v8.5.1"])),
+        "tag": ("repository without a remote; no branch matches, tags v7, v8.5, v8", dict(has_remote=False, remote_answer=None, local_answer=None, tags=["v7", "v8.5", "v8"])),
+        "tag-2": ("repository without a remote; no branch matches, tags v8, v8.5.1", dict(has_remote=False, remote_answer=None, local_answer=None, tags=["v8", "v8.5.1"])),
+        "remote-tag": ("remote repository; no branch matches remotely or locally, tag v8", dict(has_remote=True, remote_answer=None, local_answer=None, tags=["v8", "v9.1"])),
+        "nothing": ("repository without a remote; no branch matches, only tag v9", dict(has_remote=False, remote_answer=None, local_answer=None, tags=["v9"])),
+        "remote-nothing": ("remote repository; no branch and no tag matches", dict(has_remote=True, remote_answer=None, local_answer=None)),
+        "remote-hit-fails": ("remote repository; 8.5 matches remotely, the checkout fails", dict(has_remote=True, remote_answer="8.5", local_answer=None, fail="checkout")),
+        "local-hit-fails": ("repository without a remote; 8 matches locally, the checkout fails", dict(has_remote=False, remote_answer=None, local_answer="8", fail="checkout")),
+        "tag-fails": ("repository without a remote; only the tag v8.5 matches, the checkout fails", dict(has_remote=False, remote_answer=None, local_answer=None, tags=["v8.5"], fail="checkout")),
+    }
+    runs = {k: simulate(**kw) for k, (_t, kw) in SCEN.items()}
+    not_evaluated = [f"{SCEN[k][0]}: {r['val']}" for k, r in runs.items() if r["kind"] == "unknown"]
+
+    def show(r):
+        ev_ = [f"{e[0]} {e[1]}" if e[0] != "match" else f"match[{e[1]}]({e[2]})" for e in r["trace"] if e[0] != "tags"]
+        return f"{' -> '.join(ev_) or 'no git call'}; " + ("returns normally" if r["kind"] == "value" else f"raises {str(r['val'])[:60]}") + (f"; revision = {r['revs']}" if r["revs"] else "")
+
+    def decided(name, scen, ok, extra=""):
+        r = runs[scen]
+        chk.ob("O15.4", f"{name}: {SCEN[scen][0]}", ok, up, f"update({VERSION!r}): {show(r)}" + (f" — {extra}" if extra and not ok else ""), key=f"{_P}:RallyRepository.update:{name}:{scen}")
+
+    def only(r, ref_):
+        return r["kind"] == "value" and bool(r["refs"]) and set(r["refs"]) == {ref_}
+
+    if not_evaluated:
+        # (the scenarios are not decidable for this shape of update(): the structural fallback decides, and says `not recognised` where it cannot)
+        chk.stats["update_on_values"] = f"not evaluated ({not_evaluated[0][:200]})"
+        update_structurally()
+    else:
+        chk.stats["update_on_values"] = f"{len(runs)} scenarios evaluated"
+        N1 = "remote branches first (only for remote repos), then local branches"
+        decided(N1, "remote-hit", only(runs["remote-hit"], "8.5"), "the remote match must be checked out (and rebased), nothing else")
+        decided(N1, "remote-miss", only(runs["remote-miss"], "8"), "the local match must be checked out when nothing matches remotely")
+        r = runs["local-only"]
+        decided(N1, "local-only", only(r, "8") and not any(e[0] in ("rebase", "pull", "fetch") or e == ("branches", True) for e in r["trace"]) and not any(m_[0] == "remote" for m_ in r["matches"]),
+                "a repository without a remote must neither list remote branches nor rebase on / pull from a remote")
+        r = runs["remote-miss"]
+        asked = [m_[0] for m_ in r["matches"]]
+        decided("two matcher calls (remote, local)", "remote-miss", asked[:1] == ["remote"] and "local" in asked[1:], "the matcher is consulted for the remote listing first, then for the local one")
+        for scen in ("remote-hit", "remote-miss", "local-only"):
+            r = runs[scen]
+            decided("matcher called with the distribution version", scen, bool(r["matches"]) and all(m_[1] == VERSION for m_ in r["matches"]), f"asked for {[m_[1] for m_ in r['matches']]}")
+        N4 = "tags only after no local branch matched"
+        decided(N4, "local-and-tag", only(runs["local-and-tag"], "8"), "the local branch wins over a tag")
+        decided(N4, "tag", only(runs["tag"], "v8.5"), "the most specific matching v-tag is checked out")
+        decided(N4, "remote-tag", only(runs["remote-tag"], "v8"), "the v-tag is the last resort of a remote repository, too")
+        for scen in ("nothing", "remote-nothing"):
+            r = runs[scen]
+            decided("explicit error when nothing qualifies", scen, r["kind"] == "raise" and not r["refs"], "an error must be reported and nothing checked out")
+        N7 = "checkout skipped only if the current branch EQUALS the selected one"
+        for scen in ("on-8.8", "on-18", "on-x8x"):
+            decided(N7, scen, only(runs[scen], "8"), "a branch whose name merely relates to the selection (suffix, prefix, ...) is kept")
+        r = runs["on-branch"]
+        decided("current-branch test located", "on-branch", r["kind"] == "value" and set(r["refs"]) <= {"8"}, "nothing but the selected branch may be checked out")
+        for scen in ("remote-hit", "remote-miss", "tag", "on-8.8"):
+            r = runs[scen]
+            decided("revision recorded after a checkout", scen, r["kind"] == "value" and bool(r["revs"]), "no attribute of the repository holds the head revision after update(): later loads are not pinned")
+            # (an attribute that ALSO keeps an earlier head - `self.previous_revision` - is none of this rule's business: the head after the last switch must be held)
+            decided("the pinned revision is read after the last ref-changing git call", scen, r["kind"] == "value" and bool(r["revs"]) and any(v == r["final"] for v in r["revs"]),
+                    f"the head was read as {r['revs']} but {r['final']} is the head after the last checkout / rebase: later loads check out the commit Rally was on BEFORE selecting the branch")
+        N9_ = "checked-out ref is the matcher's (or tag finder's) result"
+        decided(N9_, "remote-hit-2", only(runs["remote-hit-2"], "master"))
+        decided(N9_, "local-hit-2", only(runs["local-hit-2"], "old"))
+        decided(N9_, "tag-2", only(runs["tag-2"], "v8.5.1"))
+        for scen in ("remote-hit-fails", "local-hit-fails", "tag-fails"):
+            r = runs[scen]
+            decided("a failing checkout is never swallowed", scen, r["kind"] == "raise", "update() returns normally although the checkout failed: Rally continues on whatever branch was checked out before")
+        # the remote listing is the listing AFTER a fetch: the constructor (fetch requested, online, working copy present) fetches before update() lists
+        r = simulate(has_remote=True, remote_answer="8.5", local_answer=None, fetch=True)
+        kinds = [e[0] for e in r["trace"]]
+        if r["built"] and r["kind"] != "unknown" and ("branches", True) in r["trace"]:
+            ok = "fetch" in kinds and kinds.index("fetch") < r["trace"].index(("branches", True))
+            chk.ob("O15.4", "remote branches are listed after a fetch", ok, up, f"RallyRepository(..., fetch=True).update({VERSION!r}): {show(r)}", key=f"{_P}:RallyRepository.update:fetch-before-listing")
+        else:
+            # (the constructor is not evaluated for this shape: a method of the class that fetches is accepted, anything else is `not recognised`)
+            anyf = [c for f_ in rep.methods(RR).values() for c in walk_body(f_) if isinstance(c, ast.Call) and dotted(c.func) in ("git.fetch", "git.pull")]
+            if anyf:
+                chk.ob("O15.4", "remote branches are listed after a fetch", True, up, f"`{short(anyf[0], 50)}` in a method of RallyRepository", key=f"{_P}:RallyRepository.update:fetch-before-listing")
+            else:
+                chk.unknown("O15.4", "the constructor cannot be evaluated and no method of RallyRepository fetches: whether a fetch precedes the remote listing is not recognised", up)
+
+    # the git command lines, on values: every function of git.py is evaluated with the subprocess primitives replaced by recorders (io.escape_path marks what it escapes)
+    PATH = "/rally repo"
+    L_, R_ = "«", "»"
+
+    def git_run(fn, args, kwargs):
+        cmds = []
+
+        def rec(result):
+            def f(cmd, *a, **k):
+                cmds.append(cmd)
+                return result
+            return f
+
+        stubs = {"run_subprocess_with_logging": rec(0), "run_subprocess": rec(0), "run_subprocess_with_output": rec(["line one ", "line two"]),
+                 "run_subprocess_with_logging_and_output": rec(minieval.Record(returncode=0, stdout="refs/heads/x\n")), "run_subprocess_with_out_and_err": rec(("out", "", 0)),
+                 "exit_status_as_bool": lambda runnable, quiet=False: (lambda rc: rc == 0 or rc is None)(runnable()), "escape_path": lambda p_: f"{L_}{p_}{R_}", "ensure_dir": lambda *a, **k: None}
+        gx = Interp(git, stubs=stubs)
+        kind, val = attempt(lambda: (gx.apply(gx.function_value(fn), list(args), dict(kwargs), what=fn.name), None)[1])
+        if kind != "unknown" and not all(isinstance(c, str) for c in cmds):
+            kind, val = "unknown", "a command line that is not a string"
+        return kind, val, cmds
+
+    def git_inputs(fn):
+        """(args, kwargs) to evaluate a git function with: the repository directory first, a token for every other required parameter, both values of a boolean default."""
+        a = fn.args
+        pos = [x.arg for x in a.posonlyargs + a.args]
+        if not pos or a.vararg or a.kwarg:
+            return []
+        n_req = len(pos) - len(a.defaults)
+        if n_req < 1:
+            return []
+        args = [PATH] + [f"<{n}>" for n in pos[1:n_req]]
+        variants = [{x.arg: f"<{x.arg}>" for x, d in zip(a.kwonlyargs, a.kw_defaults) if d is None}]
+        for n, d in list(zip(pos[n_req:], a.defaults)) + [(x.arg, d) for x, d in zip(a.kwonlyargs, a.kw_defaults) if d is not None]:
+            if isinstance(d, ast.Constant) and isinstance(d.value, bool):
+                variants = [dict(v, **{n: b}) for v in variants for b in (True, False)]
+        return [(args, v) for v in variants]
+
+    used_as_decorator = {dotted(d.func if isinstance(d, ast.Call) else d) for f_ in git.tree.body if isinstance(f_, ast.FunctionDef) for d in f_.decorator_list}
+    git_funcs = [f_ for f_ in git.tree.body if isinstance(f_, ast.FunctionDef) and f_.name not in used_as_decorator]
+    # functions on the update path: what the repository calls as git.<name>(...) (transitively, inside git.py)
+    on_path = {last_attr(c.func) for c in ast.walk(RR) if isinstance(c, ast.Call) and isinstance(c.func, ast.Attribute) and dotted(c.func.value) == "git"} - {"is_branch"}
+    grew = True
+    while grew:
+        grew = False
+        for f_ in git_funcs:
+            if f_.name in on_path:
+                for c in ast.walk(f_):
+                    if isinstance(c, ast.Call) and isinstance(c.func, ast.Name) and c.func.id in {g_.name for g_ in git_funcs} and c.func.id not in on_path:
+                        on_path.add(c.func.id)
+                        grew = True
+    n_sites, structural = 0, []
+    for gfn in git_funcs:
+        inputs = git_inputs(gfn)
+        results = [(kw_, git_run(gfn, a_, kw_)) for a_, kw_ in inputs]
+        if not inputs or any(k_ == "unknown" for _kw, (k_, _v, _c) in results):
+            structural.append(gfn)
+            continue
+        for i_, (kw_, (k_, _v, cmds)) in enumerate(results):
+            named = [c for c in cmds if PATH in c]
+            if not named:
+                continue
+            rawly = [c for c in named if PATH in c.replace(f"{L_}{PATH}{R_}", "")]
+            flags = {k: v for k, v in kw_.items() if isinstance(v, bool)}
+            if rawly and gfn.name not in on_path:
+                chk.adv("O15.4", f"git.{gfn.name}: the repository path is interpolated raw (not escaped) in `{rawly[0][:80]}` (not on the update path)", gfn)
+                continue
+            n_sites += 1
+            chk.ob("O15.4", f"git.{gfn.name}: the repository path is interpolated escaped" + (f" ({', '.join(f'{k}={v}' for k, v in flags.items())})" if flags else ""), not rawly, gfn,
+                   f"commands for the directory {PATH!r}: {[c.replace(L_, '<escaped:').replace(R_, '>') for c in named][:4]}" + ("" if not rawly else " — the raw path is split at the blank / mangled at a backslash"),
+                   key=f"esrally/utils/git.py:{gfn.name}:escaped-path:{i_}")
+    if structural:
+        n_sites += escaped_structurally(structural)
+    if n_sites >= 8:
+        chk.ob("O15.4", "git command sites located", True, git.tree, f"{n_sites} command(s) naming the repository directory")
+    else:
+        chk.unknown("O15.4", f"only {n_sites} git command(s) naming the repository directory located in git.py (8 expected: the commands are built differently)", git.tree)
+
+    def command_of(fname, word):
+        """the recorded command line(s) of git.<fname>(<directory>, <a token for every other parameter>) that contain the git sub-command `word`; None when the function cannot
+        be evaluated (or issues no such command)."""
+        hit = []
+        for a_, kw_ in git_inputs(git.func(fname)):
+            k_, _v, cmds = git_run(git.func(fname), a_, kw_)
+            if k_ == "unknown":
+                return None
+            hit += [c.split() for c in cmds if word in c.split()]
+        return hit or None
+
+    fcmd = command_of("fetch", "fetch")
+    if fcmd is None:
+        fetch_flags_structurally()
+    else:
+        ok = all("--prune" in w and "--tags" in w for w in fcmd)
+        chk.ob("O15.4", "git fetch prunes deleted remote branches and fetches tags", ok, git.func("fetch"), f"command words: {fcmd[0]}" +
+               ("" if ok else " — without --prune a branch deleted upstream keeps matching (origin/<branch> is stale) and is checked out instead of the documented fallback"),
+               key="esrally/utils/git.py:fetch:prune-and-tags")
+    ccmd = command_of("clone", "clone")
+    if ccmd is None:
+        clone_structurally()
+    else:
+        narrowing = [t for w in ccmd for t in w if t.startswith(("--depth", "--single-branch", "--shallow", "--branch", "-b", "--filter", "--no-tags"))]
+        chk.ob("O15.4", "git clone fetches every branch (no --depth / --single-branch / --branch)", not narrowing, git.func("clone"), f"command words: {ccmd[0]}" +
+               ("" if not narrowing else f" — {narrowing} leaves only the default branch: the best match for every version is then the default branch"), key="esrally/utils/git.py:clone:all-branches")
 
     # the tag search walks the variants most specific first and matches `v<variant>`: decided on values (git.tags(...) and versions.variants_of(...) are the only calls it makes;
     # the latter is evaluated from versions.py)
@@ -1889,8 +2239,25 @@ def run(chk):
         iv.budget = 60000
         return list(iv.iterate(iv.call_function(vo, [version]), "variants_of"))
 
+    TAG_CASES = [
+        ("tags ['v8.5', 'v8', '8.5.1', 'v9.0.0'] for 8.5.1", (["v8.5", "v8", "8.5.1", "v9.0.0"], "8.5.1"), "v8.5"),
+        ("tags ['v8', 'v8.5.1', 'v8.5'] for 8.5.1", (["v8", "v8.5.1", "v8.5"], "8.5.1"), "v8.5.1"),
+        ("tags ['v8.5.1', 'v8.5.1-SNAPSHOT'] for 8.5.1-SNAPSHOT", (["v8.5.1", "v8.5.1-SNAPSHOT"], "8.5.1-SNAPSHOT"), "v8.5.1-SNAPSHOT"),
+        ("tags ['8.5.1', '8.5', '8', 'master'] for 8.5.1 (no v prefix)", (["8.5.1", "8.5", "8", "master"], "8.5.1"), None),
+        ("tags ['v7', 'v9'] for 8.5.1", (["v7", "v9"], "8.5.1"), None),
+    ]
     if ft is None:
-        chk.unknown("O15.4", "RallyRepository._find_matching_tag is not located", RR)
+        # the tag search is not a method of that name (inlined, or a module-level function): it is decided through update() - a repository without a remote in which no
+        # branch matches checks out exactly the tag the search selects (nothing, and an error, when no tag matches)
+        def tag_via_update(tags, version):
+            r = simulate(has_remote=False, remote_answer=None, local_answer=None, tags=tags, version=version)
+            if r["kind"] == "unknown":
+                raise CannotEval(str(r["val"]))
+            if len(set(r["refs"])) > 1 or (r["kind"] == "value") != bool(r["refs"]):
+                raise _Raised(f"update() checks out {r['refs']} and {'returns' if r['kind'] == 'value' else 'raises'}")
+            return r["refs"][0] if r["refs"] else None
+
+        table(chk, "O15.4", "tag search walks the same variants order with the 'v' prefix", TAG_CASES, up, tag_via_update)
     else:
         def find_tag(tags, version):
             ir = Interp(rep, stubs={"tags": lambda *a, **k: list(tags), "variants_of": variants_of})
@@ -1898,13 +2265,7 @@ def run(chk):
             me.fields.update({"repo_dir": "/repo-dir", "resource_name": "tracks", "remote": True, "offline": False, "logger": OPAQUE})
             return ir.call_function(ft, [version], bound=me)
 
-        table(chk, "O15.4", "tag search walks the same variants order with the 'v' prefix", [
-            ("tags ['v8.5', 'v8', '8.5.1', 'v9.0.0'] for 8.5.1", (["v8.5", "v8", "8.5.1", "v9.0.0"], "8.5.1"), "v8.5"),
-            ("tags ['v8', 'v8.5.1', 'v8.5'] for 8.5.1", (["v8", "v8.5.1", "v8.5"], "8.5.1"), "v8.5.1"),
-            ("tags ['v8.5.1', 'v8.5.1-SNAPSHOT'] for 8.5.1-SNAPSHOT", (["v8.5.1", "v8.5.1-SNAPSHOT"], "8.5.1-SNAPSHOT"), "v8.5.1-SNAPSHOT"),
-            ("tags ['8.5.1', '8.5', '8', 'master'] for 8.5.1 (no v prefix)", (["8.5.1", "8.5", "8", "master"], "8.5.1"), None),
-            ("tags ['v7', 'v9'] for 8.5.1", (["v7", "v9"], "8.5.1"), None),
-        ], ft, find_tag)
+        table(chk, "O15.4", "tag search walks the same variants order with the 'v' prefix", TAG_CASES, ft, find_tag)
     for v_ in ("8.5.1-SNAPSHOT", "7.10.2"):
         k1, want_ = attempt(lambda: variant_values(v_))
         k2, got_ = attempt(lambda: variants_of(v_))
@@ -1991,6 +2352,60 @@ _FP_HELPER = ('    parts = (components(a, strict=False) for a in alternatives if
               '    minors = sorted(map(operator.itemgetter(1), filter(functools.partial(_eligible, target_version), parts)), reverse=True)\n    return next(iter(minors), None)\n\n\n'
               'def _eligible(target_version, parts):\n    major, minor, patch, suffix = parts\n'
               '    return patch is None and suffix is None and minor is not None and major == target_version.major and minor <= target_version.minor\n')
+
+# ---- update() / git.py refactorings the value-decided O15.4 accepts (round 3): the whole method is replaced (regex anchor: from its `def` to the next method)
+_UP_RX = r"    def update\(self, distribution_version\):\n.*?(?=    def _find_matching_tag\(self)"
+_UP_TAIL = ('        except exceptions.SupplyError as e:\n            tb = sys.exc_info()[2]\n'
+            '            raise exceptions.DataError("Cannot update %s in [%s] (%s)." % (self.resource_name, self.repo_dir, e.message)).with_traceback(tb)\n\n')
+_UP_REMOTE = ('        self.logger.info("Checking out [%s] in [%s] for distribution version [%s].", branch, self.repo_dir, distribution_version)\n'
+              '        git.checkout(self.repo_dir, branch=branch)\n        self.logger.info("Rebasing on [%s] in [%s] for distribution version [%s].", branch, self.repo_dir, distribution_version)\n'
+              '        try:\n            git.rebase(self.repo_dir, remote="origin", branch=branch)\n            self.revision = git.head_revision(self.repo_dir)\n'
+              '        except exceptions.SupplyError:\n            self.logger.exception("Cannot rebase due to local changes in [%s]", self.repo_dir)\n'
+              '            console.warn("Local changes in [%s] prevent %s update from remote. Please commit your changes." % (self.repo_dir, self.resource_name))\n')
+_UP_SPLIT = ('    def update(self, distribution_version):\n        try:\n            if self.remote and self._update_from_remote(distribution_version):\n                return\n'
+             '            self._update_from_local(distribution_version)\n' + _UP_TAIL +
+             '    def _update_from_remote(self, distribution_version):\n        branch = versions.best_match(git.branches(self.repo_dir, remote=self.remote), distribution_version)\n'
+             '        if not branch:\n            self.logger.warning("Could not find %s remotely for distribution version [%s].", self.resource_name, distribution_version)\n            return False\n'
+             + _UP_REMOTE + '        return True\n\n'
+             '    def _update_from_local(self, distribution_version):\n        branch = versions.best_match(git.branches(self.repo_dir, remote=False), distribution_version)\n'
+             '        if branch:\n            if git.current_branch(self.repo_dir) != branch:\n                git.checkout(self.repo_dir, branch=branch)\n'
+             '                self.revision = git.head_revision(self.repo_dir)\n            return\n        tag = self._find_matching_tag(distribution_version)\n        if not tag:\n'
+             '            raise exceptions.SystemSetupError("Cannot find %s for distribution version %s" % (self.resource_name, distribution_version))\n'
+             '        git.checkout(self.repo_dir, branch=tag)\n        self.revision = git.head_revision(self.repo_dir)\n\n')
+_UP_GUARDS = ('    def update(self, distribution_version):\n        try:\n            if self.remote:\n'
+              '                branch = versions.best_match(git.branches(self.repo_dir, remote=self.remote), distribution_version)\n                if branch:\n'
+              + "".join("            " + l + "\n" for l in _UP_REMOTE.split("\n")[:-1]) + '                    return\n'
+              '                self.logger.warning("Could not find %s remotely for distribution version [%s].", self.resource_name, distribution_version)\n'
+              '            local_branches = git.branches(self.repo_dir, remote=False)\n            ref = versions.best_match(local_branches, distribution_version)\n'
+              '            if ref and git.current_branch(self.repo_dir) == ref:\n                return\n            if not ref:\n                ref = self._find_matching_tag(distribution_version)\n'
+              '            if not ref:\n                raise exceptions.SystemSetupError("Cannot find %s for distribution version %s" % (self.resource_name, distribution_version))\n'
+              '            self.logger.info("Checking out [%s] in [%s] for distribution version [%s].", ref, self.repo_dir, distribution_version)\n'
+              '            git.checkout(self.repo_dir, branch=ref)\n            self.revision = git.head_revision(self.repo_dir)\n' + _UP_TAIL)
+_BB_HELPER = ('    def _best_branch(self, distribution_version, remote):\n        return versions.best_match(git.branches(self.repo_dir, remote=remote), distribution_version)\n\n'
+              '    def _find_matching_tag(self, distribution_version):\n')
+_GIT_RUN = 'def _run(src_dir, command):\n    return process.run_subprocess_with_logging(f"git -C {io.escape_path(src_dir)} {command}")\n\n\ndef is_working_copy(src):'
+_GIT_SITES = [('process.run_subprocess_with_logging(f"git -C {io.escape_path(src)} fetch --prune --tags {remote}")', '_run(src, f"fetch --prune --tags {remote}")'),
+              ('process.run_subprocess_with_logging(f"git -C {io.escape_path(src_dir)} checkout {branch}")', '_run(src_dir, f"checkout {branch}")'),
+              ('process.run_subprocess_with_logging(f"git -C {io.escape_path(src_dir)} rebase {remote}/{branch}")', '_run(src_dir, f"rebase {remote}/{branch}")'),
+              ('process.run_subprocess_with_logging(f"git -C {io.escape_path(src_dir)} checkout {revision}")', '_run(src_dir, f"checkout {revision}")')]
+
+_PAT_OLD = 'VERSIONS_OPTIONAL = re.compile(r"^(\\d+)(?:\\.(\\d+)(?:\\.(\\d+)(?:-(.+))?)?)?$")'
+_COMP_OLD = ('        if matches.start(4) > 0:\n            return int(matches.group(1)), int(matches.group(2)), int(matches.group(3)), matches.group(4)\n'
+             '        elif matches.start(3) > 0:\n            return int(matches.group(1)), int(matches.group(2)), int(matches.group(3)), None\n'
+             '        elif matches.start(2) > 0:\n            return int(matches.group(1)), int(matches.group(2)), None, None\n'
+             '        elif matches.start(1) > 0:\n            return int(matches.group(1)), None, None, None\n        else:\n            return int(version), None, None, None\n')
+_COMP_GROUPS = ('        major, minor, patch, suffix = matches.groups()\n'
+                '        return int(major), (int(minor) if minor is not None else None), (int(patch) if patch is not None else None), suffix\n')
+
+
+def _whole_update(name, kind, rule, new):
+    assert "\\" not in new
+    return V(name, kind, _P, _UP_RX, new, rule, regex=True)
+
+
+def _git_helper(name, kind, rule, helper=_GIT_RUN, sites=None):
+    edits = [("def is_working_copy(src):", helper)] + (sites or _GIT_SITES)
+    return [V(name if i == 0 else "", kind, _G, old, new, rule if i == 0 else None) for i, (old, new) in enumerate(edits)]
 
 
 def _av_new(ctor, kinds=('"with_suffix"', '"with_patch"', '"with_minor"', '"with_major"')):
@@ -2140,6 +2555,48 @@ VARIANTS = [
     [V("search as sorted(map(itemgetter, filter(partial(...)))) + next(iter(...))", "keep", _V, _IMP_OLD, _IMP_OLD + "import operator\n"), V("", "keep", _V, _LB_OLD, _FP_HELPER)],
     [V("itemgetter / partial search sorted ascending (farthest eligible minor)", "break", _V, _IMP_OLD, _IMP_OLD + "import operator\n", "O15.3"),
      V("", "break", _V, _LB_OLD, _FP_HELPER.replace("reverse=True", "reverse=False"))],
+    # ---- update() / git.py in shapes the structural rules did not follow: decided on values
+    [V("both matcher calls behind one helper method (_best_branch(version, remote))", "keep", _P, "versions.best_match(git.branches(self.repo_dir, remote=self.remote), distribution_version)",
+       "self._best_branch(distribution_version, remote=self.remote)"),
+     V("", "keep", _P, "versions.best_match(git.branches(self.repo_dir, remote=False), distribution_version)", "self._best_branch(distribution_version, remote=False)"),
+     V("", "keep", _P, "    def _find_matching_tag(self, distribution_version):\n", _BB_HELPER)],
+    [V("matcher helper ignores its remote parameter (always the remote listing)", "break", _P, "versions.best_match(git.branches(self.repo_dir, remote=self.remote), distribution_version)",
+       "self._best_branch(distribution_version, remote=self.remote)", "O15.4"),
+     V("", "break", _P, "versions.best_match(git.branches(self.repo_dir, remote=False), distribution_version)", "self._best_branch(distribution_version, remote=False)"),
+     V("", "break", _P, "    def _find_matching_tag(self, distribution_version):\n", _BB_HELPER.replace("git.branches(self.repo_dir, remote=remote)", "git.branches(self.repo_dir)"))],
+    _whole_update("update() split into _update_from_remote() -> bool and _update_from_local()", "keep", None, _UP_SPLIT),
+    _whole_update("split update(): the remote step reports `not done` after a successful checkout (the local match is checked out on top)", "break", "O15.4",
+                  _UP_SPLIT.replace("        return True\n", "        return False\n")),
+    _whole_update("split update(): the tag checkout does not record the revision", "break", "O15.4",
+                  _UP_SPLIT.replace("        git.checkout(self.repo_dir, branch=tag)\n        self.revision = git.head_revision(self.repo_dir)\n", "        git.checkout(self.repo_dir, branch=tag)\n")),
+    _whole_update("update() with guard clauses and ONE checkout site for the local match and the tag", "keep", None, _UP_GUARDS),
+    _whole_update("guard-clause update(): already-on-branch test by prefix", "break", "O15.4", _UP_GUARDS.replace("git.current_branch(self.repo_dir) == ref:", "git.current_branch(self.repo_dir).startswith(ref):")),
+    _whole_update("guard-clause update(): the tag is searched although a local branch matched", "break", "O15.4",
+                  _UP_GUARDS.replace("            if not ref:\n                ref = self._find_matching_tag(distribution_version)\n",
+                                     "            ref = self._find_matching_tag(distribution_version) or ref\n")),
+    _whole_update("guard-clause update(): no error when nothing qualifies (returns silently)", "break", "O15.4",
+                  _UP_GUARDS.replace('                raise exceptions.SystemSetupError("Cannot find %s for distribution version %s" % (self.resource_name, distribution_version))\n', "                return\n")),
+    [V("update() body under a lock (`with` is not evaluated: the structural fallback decides)", "keep", _P, "    def update(self, distribution_version):\n        try:\n",
+       "    def update(self, distribution_version):\n      with self._lock:\n        try:\n"),
+     V("", "keep", _P, "        self.revision = None\n", "        self.revision = None\n        self._lock = threading.Lock()\n"), V("", "keep", _P, "import sys\n", "import sys\nimport threading\n")],
+    [V("update() body under a lock, tag checkout without the revision (structural fallback)", "break", _P, "    def update(self, distribution_version):\n        try:\n",
+       "    def update(self, distribution_version):\n      with self._lock:\n        try:\n", "O15.4"),
+     V("", "break", _P, "        self.revision = None\n", "        self.revision = None\n        self._lock = threading.Lock()\n"), V("", "break", _P, "import sys\n", "import sys\nimport threading\n"),
+     V("", "break", _P, _TAG_OLD, _TAG_OLD.replace("                    self.revision = git.head_revision(self.repo_dir)\n", ""))],
+    V("an additional attribute keeps the head BEFORE the update (previous_revision)", "keep", _P, "    def update(self, distribution_version):\n        try:\n",
+      "    def update(self, distribution_version):\n        self.previous_revision = git.head_revision(self.repo_dir)\n        try:\n"),
+    _git_helper("git.py: command lines built by one helper (_run(src_dir, command))", "keep", None),
+    _git_helper("git command helper interpolates the raw directory", "break", "O15.4", helper=_GIT_RUN.replace("{io.escape_path(src_dir)}", "{src_dir}")),
+    _git_helper("fetch through the command helper without --prune", "break", "O15.4", sites=[(_GIT_SITES[0][0], '_run(src, f"fetch --tags {remote}")')] + _GIT_SITES[1:]),
+    # ---- the regex primitives themselves, evaluated with Python's engine
+    [V("lenient pattern without anchors, applied with fullmatch()", "keep", _V, _PAT_OLD, _PAT_OLD.replace('r"^', 'r"').replace('$")', '")')),
+     V("", "keep", _V, "_versions_pattern(strict).match(text) is not None", "_versions_pattern(strict).fullmatch(text) is not None"),
+     V("", "keep", _V, "matches = versions_pattern.match(version)", "matches = versions_pattern.fullmatch(version)")],
+    V("lenient pattern loses its end anchor (still applied with match())", "break", _V, _PAT_OLD, _PAT_OLD.replace('$")', '")'), "O15.3"),
+    V("pattern choice as a dict lookup", "keep", _V, "    return VERSIONS if strict else VERSIONS_OPTIONAL\n", "    return {True: VERSIONS, False: VERSIONS_OPTIONAL}[bool(strict)]\n"),
+    V("pattern choice inverted (branch names parsed strictly, versions leniently)", "break", _V, "    return VERSIONS if strict else VERSIONS_OPTIONAL\n", "    return VERSIONS_OPTIONAL if strict else VERSIONS\n", "O15.3"),
+    V("components() from matches.groups()", "keep", _V, _COMP_OLD, _COMP_GROUPS),
+    V("components() from groups(): a '.0' minor becomes None (`int(minor) or None`)", "break", _V, _COMP_OLD, _COMP_GROUPS.replace("(int(minor) if minor", "(int(minor) or None if minor"), "O15.3"),
     # preserving
     V("strictly smaller minors only", "keep", _V, "minor is not None and minor <= target_version.minor:", "minor is not None and minor < target_version.minor:"),
     V("nearest = max", "keep", _V, "    return min(eligible_minors, key=lambda x: abs(x - target_version.minor))", "    return max(eligible_minors)"),
